@@ -19,7 +19,7 @@ from ..rulekit import CLOSED_EXC, TIMEOUT_EXC, exc_is, isym, new_dict, new_list,
 from ..values import C, FALSE, INF, NONE, TRUE, App, HObj, Ref, Sym, Tup, concat
 
 
-@rule("R-C03-1", min_instances=2, title="recv_strict keeps every byte it already has when the transport raises")
+@rule("R-C03-1", min_instances=1, title="recv_strict keeps every byte it already has when the transport raises")
 def r1(ctx):
     q = "_abnf:frame_buffer.recv_strict"
     loc = ctx.index.loc(ctx.index.func(q).node)
@@ -62,19 +62,8 @@ def r1(ctx):
            f"{n} timeout paths: buffer = bytes held before + every chunk received, in order" if bad is None else
            f"after a timeout the buffer holds {bad[0]!r} but {['<held>'] + [repr(c) for c in bad[1]]} had been received: bytes are lost or reordered",
            loc, {"path": path_text(bad[2])} if bad else None)
-    # nothing between the transport call and the append may raise: syntactic part
-    fn = ctx.index.func(q).node
-    loops = [x for x in ast.walk(fn) if isinstance(x, ast.While)]
-    ok = False
-    if loops:
-        body_ = loops[0].body
-        for i, st in enumerate(body_[:-1]):
-            if isinstance(st, ast.Assign) and isinstance(st.value, ast.Call) and text(st.value.func) == "self.recv":
-                nxt = body_[i + 1]
-                ok = isinstance(nxt, ast.Expr) and isinstance(nxt.value, ast.Call) and text(nxt.value.func) == "self.recv_buffer.append" \
-                    and text(nxt.value.args[0]) == text(st.targets[0])
-    ctx.ob(f"{q}:append-immediately-after-read", ok, "the chunk is appended in the statement right after the transport call" if ok else
-           "statements between the transport read and the append of its result: an exception there would drop a chunk", loc)
+    # (that a chunk is kept as soon as it is read is what the injection above decides: a chunk whose storing were delayed past
+    #  the next transport call would be missing from the buffer on the path where that call times out)
 
 
 def _frame_sig(run, fr):
